@@ -605,9 +605,9 @@ func runTask(l *loaded, t *task, tier, seed int, dump string) *taskResult {
 	ex.Deadline = time.Now().Add(15 * time.Minute)
 	ex.SplitBudgetSecs = 300
 	if tier == 1 {
-		ex.SplitBudgetSecs = 3600
+		ex.SplitBudgetSecs = 900
 		ex.FullMs = 120000
-		ex.Deadline = time.Now().Add(2 * time.Hour)
+		ex.Deadline = time.Now().Add(40 * time.Minute)
 	}
 	if v := os.Getenv("VERIF_MAXPATHS"); v != "" {
 		ex.MaxPaths, _ = strconv.Atoi(v)
